@@ -364,3 +364,9 @@ KEEP += [
     ('K94', None, [(f, old, new, False) for f, old, new in _k94], None, ['C13', 'C12'],
      'parameters and locals renamed in the RRT planner glue and the bisection'),
 ]
+
+ALL_MAIN = [C, K, CO, T, F, P, J, W, CA, R, RT, Y, PY, U]
+KEEP += [
+    ('K95', 'GEN', 'rename_locals', ALL_MAIN, ['C%02d' % i for i in range(1, 21)],
+     'every parameter and local variable of every non-test function in fourteen source files renamed (generated by tools/rename_locals.py)'),
+]
